@@ -65,6 +65,10 @@ def mono_norm(items):
     for a, e in d.items():
         if e == 0:
             continue
+        if a[0] in ("step", "stepge"):
+            if e < 0:
+                raise Unsupported("negative power of an indicator")
+            e = Fr(1)
         if a[0] == "lt":
             if e < 0:
                 raise Unsupported("negative power of an indicator")
@@ -236,7 +240,7 @@ def show_atom(a):
     if k == "sum":
         body = "*".join(show_atom(x) + ("" if e == 1 else f"^{e}") for x, e in a[2])
         return f"Sum[{','.join(i for i, _ in a[1])}]({body})"
-    if k in ("paren", "abs", "sign"):
+    if k in ("paren", "abs", "sign", "exp", "step", "stepge"):
         return f"{'' if k == 'paren' else k}({Poly.thaw(a[1])!r})"
     if k == "fni":
         return f"{a[1]}<{abs(hash(a[2])) % 10000}>"
@@ -267,7 +271,7 @@ def atom_indices(a):
         for x, _ in a[2]:
             s |= atom_indices(x)
         r = frozenset(s - {i for i, _ in a[1]})
-    elif k in ("paren", "abs", "sign"):
+    elif k in ("paren", "abs", "sign", "exp", "step", "stepge"):
         s = set()
         for m, _ in a[1]:
             for x, _e in m:
@@ -309,7 +313,7 @@ def atom_positive(a):
         return all(atom_positive(x) for x, _ in a[2])
     if k == "paren":
         return all(c > 0 and all(atom_positive(x) for x, _ in m) for m, c in a[1])
-    if k == "abs":
+    if k in ("abs", "exp"):
         return True
     return False
 
@@ -409,6 +413,10 @@ def subst_atom(a, mp):
         return mk_abs(subst(Poly.thaw(a[1]), mp))
     if k == "sign":
         return mk_sign(subst(Poly.thaw(a[1]), mp))
+    if k == "exp":
+        return mk_exp(subst(Poly.thaw(a[1]), mp))
+    if k in ("step", "stepge"):
+        return mk_step(subst(Poly.thaw(a[1]), mp), strict=(k == "step"))
     if k == "fn":
         bound = set(a[3]) if len(a) > 3 else set()
         mp2 = {x: y for x, y in mp.items() if x not in bound}
@@ -460,7 +468,7 @@ def mk_pow(p, r):
                 if a[0] == "const":
                     res = res * _rat_pow(a[1], e * r) if (e * r).denominator == 1 else res * Poly.atom(a, e * r)
                 else:
-                    res = res * Poly({((a, e * r),): Fr(1)}) if a[0] not in ("delta", "offdiag", "lt") else (res * Poly.atom(a) if r > 0 else _unsup("negative power of an indicator"))
+                    res = res * Poly({((a, e * r),): Fr(1)}) if a[0] not in ("delta", "offdiag", "lt", "step", "stepge") else (res * Poly.atom(a) if r > 0 else _unsup("negative power of an indicator"))
             else:
                 rest.append((a, e))
         if integer:
@@ -594,6 +602,44 @@ def _sign_normal(p):
     return coef, pulled, q
 
 
+def mk_exp(p):
+    if p.is_zero():
+        return Poly.const(1)
+    return Poly.atom(("exp", p.frozen()))
+
+
+def mk_step(p, strict=True):
+    """indicator of p > 0 (strict) or p >= 0; step(q * step(q)) = step(q)"""
+    if poly_positive(p):
+        return Poly.const(1)
+    if strict and p.t:
+        # p = q * step(q)  (a rectified value): positive exactly where q is
+        common = None
+        for m in p.t:
+            st = {a for a, e in m if a[0] == "step"}
+            common = st if common is None else (common & st)
+        for sa in (common or ()):
+            rest = Poly({tuple((a, e) for a, e in m if a != sa): c for m, c in p.t.items()})
+            if rest == Poly.thaw(sa[1]):
+                return Poly.atom(sa)
+    s = p.single()
+    if s is not None and strict:
+        c, m = s
+        steps = [(a, e) for a, e in m if a[0] == "step"]
+        if len(steps) == 1 and c > 0:
+            rest = Poly({tuple((a, e) for a, e in m if a[0] != "step"): c})
+            q = Poly.thaw(steps[0][0][1])
+            if rest == q or (rest * Poly.const(1 / c)) == q:
+                return Poly.atom(steps[0][0])
+        pos = [(a, e) for a, e in m if atom_positive(a)]
+        if pos and c > 0:
+            rest = Poly({tuple((a, e) for a, e in m if not atom_positive(a)): Fr(1)})
+            if rest.is_const():
+                return Poly.const(1)
+            return mk_step(rest, strict)
+    return Poly.atom(("step" if strict else "stepge", p.frozen()))
+
+
 def mk_abs(p):
     if p.is_zero():
         return p
@@ -651,7 +697,7 @@ def _level(atom):
     lv = 0
     if k == "log":
         return _level(atom[1])
-    if k in ("paren", "abs", "sign"):
+    if k in ("paren", "abs", "sign", "exp", "step", "stepge"):
         for m, _ in atom[1]:
             for x, _e in m:
                 lv = max(lv, _level(x))
@@ -809,8 +855,10 @@ def diff_atom(a, tname, target):
         for i, t in zip(a[2], target):
             out = out * mk_delta(i, t)
         return out
-    if k in ("sym", "const", "delta", "offdiag", "lt", "sign"):
+    if k in ("sym", "const", "delta", "offdiag", "lt", "sign", "step", "stepge"):
         return Poly()
+    if k == "exp":
+        return Poly.atom(a) * diff(Poly.thaw(a[1]), tname, target)
     if k == "log":
         return diff_atom(a[1], tname, target) * mk_pow(Poly.atom(a[1]), -1)
     if k == "sum":
@@ -1051,3 +1099,39 @@ def instance_zero(p, free, sizes_list=((2, 2), (3, 2), (2, 3)), simplex=True):
             if not is_zero(q):
                 return False, {"N": n, "K": k, "indices": env, "residual": repr(q)[:300]}
     return True, None
+
+
+def replace_tensor(p, name, fn):
+    """replace every entry name[i, j, ...] by fn((i, j, ...)) (a Poly), also under sums and inside atoms"""
+    res = Poly()
+    for m, c in p.t.items():
+        term = Poly.const(c)
+        for a, e in m:
+            term = term * mk_pow(_replace_tensor_atom(a, name, fn), e)
+        res = res + term
+    return res
+
+
+def _replace_tensor_atom(a, name, fn):
+    k = a[0]
+    if k == "var":
+        return fn(a[2]) if a[1] == name else Poly.atom(a)
+    if k in ("sym", "const", "delta", "offdiag", "lt"):
+        return Poly.atom(a)
+    if k == "log":
+        return mk_log(_replace_tensor_atom(a[1], name, fn))
+    if k == "sum":
+        ren = {i: fresh(d) for i, d in a[1]}
+        body = subst(Poly({a[2]: Fr(1)}), ren)
+        return mk_sum([(ren[i], d) for i, d in a[1]], replace_tensor(body, name, fn))
+    if k == "paren":
+        return replace_tensor(Poly.thaw(a[1]), name, fn)
+    if k == "abs":
+        return mk_abs(replace_tensor(Poly.thaw(a[1]), name, fn))
+    if k == "sign":
+        return mk_sign(replace_tensor(Poly.thaw(a[1]), name, fn))
+    if k == "exp":
+        return mk_exp(replace_tensor(Poly.thaw(a[1]), name, fn))
+    if k in ("step", "stepge"):
+        return mk_step(replace_tensor(Poly.thaw(a[1]), name, fn), strict=(k == "step"))
+    raise Unsupported(f"replace_tensor in atom {k}")
